@@ -75,13 +75,14 @@ def exact_count(state):
 
 
 def large_work(item):
-    par, n_out, policy = item
+    par, n_out, policy = item[:3]
     from phyclone.smc.utils import RootPermutationDistribution
     from mc.checks.c02 import forest_state
     from mc.enumrng import EnumRNG
 
     K = len(par)
-    state, n_in = forest_state(par, [1 + (i % 3 == 0) for i in range(K)])
+    sizes = list(item[3]) if len(item) > 3 else [1 + (i % 3 == 0) for i in range(K)]
+    state, n_in = forest_state(par, sizes)
     state = (state[0], frozenset(range(n_in, n_in + n_out)))
     data = oracle.make_data(n_in + n_out, grid=2, outlier_prob=0.2)
     res = {"item": item, "problems": []}
@@ -223,13 +224,18 @@ def main(tier, seed):
 
     shapes = large_forests() + [tuple([-1] + list(range(29))), tuple([-1] + [0] * 24)]  # chain of 30 clones, star of 25
     litems = [(par, n_out, pol) for par in shapes for n_out in (0, 3) for pol in ("first", "last")]
+    # clones with many data points: sibling groups whose sizes and totals run through 20 ... 70 (tables and integer types have edges there)
+    for par, sizes in (((-1, -1), (12, 10)), ((-1, -1), (21, 5)), ((-1, 0, 0), (1, 21, 5)), ((-1, 0, 0), (2, 16, 16)), ((-1, -1, -1), (31, 1, 1)), ((-1, -1), (40, 35)),
+                       ((-1, 0, 1, 1), (2, 3, 24, 4)), ((-1, -1, 1), (20, 1, 20))):
+        for n_out in (0, 2):
+            litems.append((par, n_out, "first", sizes))
     for r in pool_imap(large_work, litems, chunksize=2):
         chk.transitions += 1
         chk.traces_validated += 1
-        chk.states.add(("large", r["item"][0], r["item"][1]))
-        chk.nontrivial.add(("large", r["item"][0], r["item"][1]))
+        chk.states.add(("large",) + tuple(r["item"][:2]) + tuple(r["item"][3:]))
+        chk.nontrivial.add(("large",) + tuple(r["item"][:2]) + tuple(r["item"][3:]))
         for pr in r["problems"][:2]:
-            chk.violation({"sub": "large", "what": pr.split(":")[0][:40]}, {"problem": pr}, {"large": [list(r["item"][0]), r["item"][1], r["item"][2]]})
+            chk.violation({"sub": "large", "what": pr.split(":")[0][:40]}, {"problem": pr}, {"large": [list(r["item"][0]), r["item"][1], r["item"][2]] + ([list(r["item"][3])] if len(r["item"]) > 3 else [])})
     return chk.finish()
 
 
@@ -241,7 +247,7 @@ def replay(path):
 
         return c06.replay(path, make_inv=make_invariant)
     if "large" in rp:
-        r = large_work((tuple(rp["large"][0]), rp["large"][1], rp["large"][2]))
+        r = large_work((tuple(rp["large"][0]), rp["large"][1], rp["large"][2]) + ((tuple(rp["large"][3]),) if len(rp["large"]) > 3 else ()))
         print(r["problems"])
         return 1 if r["problems"] else 0
     r = work((rp["n"], rp["state_index"], rp["variant"]))
